@@ -400,12 +400,16 @@ def annotCount : Annot → Nat
   | [] => 0
   | f :: r => (if annotHas r f then 0 else 1) + annotCount r
 
-/-- `Annotation.get_location_range()`: `(min first, max last + 1)`, starting from `±sys.maxsize`. -/
+/-- `Annotation.get_location_range()`: `(min first, max last + 1)` over all locations (exact for positions of
+any size); the empty annotation gives `(sys.maxsize, -sys.maxsize + 1)`. -/
 def annotRange (a : Annot) : Int × Int :=
-  let r := a.foldl (fun acc f => f.locs.foldl (fun (acc : Int × Int) l =>
-      (if l.first < acc.1 then l.first else acc.1, if l.last > acc.2 then l.last else acc.2)) acc)
-    (maxsize, -maxsize)
-  (r.1, r.2 + 1)
+  let r : Option (Int × Int) := a.foldl (fun acc f => f.locs.foldl (fun (acc : Option (Int × Int)) l =>
+      match acc with
+      | none => some (l.first, l.last)
+      | some (lo, hi) => some (if l.first < lo then l.first else lo, if l.last > hi then l.last else hi)) acc) none
+  match r with
+  | none => (maxsize, -maxsize + 1)
+  | some (lo, hi) => (lo, hi + 1)
 
 /-- `AnnotatedSequence.__setitem__(slice(a, b), item)` (bounds left of the sequence start are refused; beyond the end numpy clips). -/
 def setSlice (s : ASeq) (a b : Option Int) (v : List Nat) : Except Err ASeq :=
